@@ -54,7 +54,7 @@ FOOTPRINT = {
     "C06": (["tstate"] + ALLOC, ["finished", "ready", "allocate", "working", "init", "free-run", "exception"]),
     "C07": (COSTS + RES_LOGS, ["cost", "record", "init", "free-run", "exception"]),
     "C08": (ALL_LOGS + ["time"], None),
-    "C10": (["rem"] + ALLOC + RES + COSTS + RES_LOGS, ["absence", "allocate", "working", "cost", "perform", "record", "free-run", "exception"]),
+    "C10": (["rem", "tstate"] + ALLOC + RES + COSTS + RES_LOGS, ["absence", "allocate", "working", "cost", "perform", "record", "free-run", "exception"]),
     "C11": (ALLOC, ["allocate", "exception"]),
     "C12": (PERT, None),
     "C13": (PLACE + ["allocF", "tstate"], None),
